@@ -298,11 +298,19 @@ func (ep *Endpoint) Write(b []byte) (Result, int, int) {
 	ep.mu.Unlock()
 	ep.Net.Bracket(ep.Side, id)
 	var n int
+	// the application owns its buffer again as soon as Write returns and re-uses it (io.Copy does): the
+	// transport is handed a scratch copy that is overwritten after the call
+	scratch := append(make([]byte, 0, len(b)), b...)
 	r := Call(WriteWatchdog, func() error {
 		var err error
-		n, err = conn.Write(b)
+		n, err = conn.Write(scratch)
 		return err
 	})
+	if !r.TimedOut {
+		for i := range scratch {
+			scratch[i] ^= 0x5a
+		}
+	}
 	ep.Net.Bracket(ep.Side, 0)
 	return r, n, id
 }
